@@ -1,7 +1,7 @@
 (* Props/W3Methods2.v — sptensor.allsubs translated with `self` as a record parameter (Gen/GenMethods2.v, regenerated from
    /repo/pyttb/sptensor.py at run time; it calls the generated khatrirao of Gen/GenKernels.v).  Only statements, `exact`,
-   Print Assumptions.  The general enumeration statement (allsubs_enumerates_stmt in Proofs/W3Methods2.v) is NOT proved:
-   allsubs is correspondence-only beyond the cases below. *)
+   Print Assumptions.  The general enumeration statement (allsubs_enumerates_stmt in Proofs/W3Methods2.v) is proved in
+   Proofs/C17Allsubs.v (w5-C17; stated in Props/C17w5.v as C17_gen_allsubs_all_shapes, checked by ./check C17). *)
 From Coq Require Import List ZArith Bool.
 From PV Require Import Np.NpZ Np.NpZ2 Np.NpZ3 Np.NpZ3c Np.NpZ3d Gen.GenKernels Gen.GenMethods2 Proofs.W3Methods2.
 Import ListNotations.
